@@ -16,20 +16,7 @@ PERS = "aiomysensors.persistence.Persistence"
 def run(ctx: Ctx, chk) -> None:
     chk.assume("A1", "A3", "A5")
     chk.run_rule(enter_order, ctx)
-    rule = "LIFE-1"
-    chk.rule(rule, "a task that is cancelled and then awaited does not re-raise CancelledError into the awaiter (protected await, or a body that absorbs cancellation at every suspension point)")
-    pers = ctx.cls(PERS)
-    funcs = []
-    for fl in pers.mro_methods().values():
-        for f in fl:
-            funcs.append(f)
-            funcs.extend(f.nested.values())
-    # a canceller written as a private callable class / function of the module instead of a closure
-    for f in ctx.prog.all_functions():
-        if f.module is pers.module and f not in funcs and f.cls is not pers:
-            funcs.append(f)
-    n = lifecycle.life1(ctx, chk, rule, funcs)
-    chk.floor(rule, "cancel-then-await sites in Persistence", n, 1)
+    chk.run_rule(life1_rule, ctx)
     chk.run_rule(life2, ctx)
     chk.run_rule(life3, ctx)
     chk.run_rule(stop1, ctx)
@@ -51,6 +38,23 @@ def run(ctx: Ctx, chk) -> None:
     from . import connleak
 
     chk.run_rule(connleak.conn_leak, ctx)
+
+
+def life1_rule(ctx: Ctx, chk) -> None:
+    rule = "LIFE-1"
+    chk.rule(rule, "a task that is cancelled and then awaited does not re-raise CancelledError into the awaiter (protected await, or a body that absorbs cancellation at every suspension point)")
+    pers = ctx.cls(PERS)
+    funcs = []
+    for fl in pers.mro_methods().values():
+        for f in fl:
+            funcs.append(f)
+            funcs.extend(f.nested.values())
+    # a canceller written as a private callable class / function of the module instead of a closure
+    for f in ctx.prog.all_functions():
+        if f.module is pers.module and f not in funcs and f.cls is not pers:
+            funcs.append(f)
+    n = lifecycle.life1(ctx, chk, rule, funcs)
+    chk.floor(rule, "cancel-then-await sites in Persistence", n, 1)
 
 
 def _no_exit_stack(ctx: Ctx, f, rule: str) -> None:
@@ -363,6 +367,17 @@ def stop1(ctx: Ctx, chk) -> None:
                         stores = [x for x in ctx.own_nodes(f) if isinstance(x, ast.Assign) and norm(x.targets[0]) == "self._cancel_save" and norm(x.value) == h.name]
                         if stores or h is stop:
                             ok = True
+                        else:
+                            # the installed callback may reach the cancel through another nested helper it awaits
+                            installed = {norm(x.value) for x in ctx.own_nodes(f) if isinstance(x, ast.Assign) and norm(x.targets[0]) == "self._cancel_save"}
+                            reach = set(installed)
+                            for _ in range(3):
+                                for nm_ in list(reach):
+                                    g_ = f.nested.get(nm_)
+                                    if g_ is not None:
+                                        reach |= {norm(x.value.func) for x in ctx.own_nodes(g_) if isinstance(x, ast.Await) and isinstance(x.value, ast.Call) and isinstance(x.value.func, ast.Name) and x.value.func.id in f.nested}
+                            if h.name in reach:
+                                ok = True
             if not ok and _class_canceller(ctx, f, tname):
                 ok = True
         if ok:
